@@ -32,6 +32,8 @@ def gen_spec(rng):
             "lits": [rng.randint(1, 9) for _ in range(8)],
             "classes": []}
     base_in_q = has_q and rng.random() < 0.7
+    # a package-level import in P's own definition that classes of P rely on (part of what a placeholder lacks)
+    spec["p_import"] = bool(base_in_q and rng.random() < 0.4)
     spec["classes"].append({"name": "T", "where": "P", "tpl": "type"})
     spec["classes"].append({"name": "Base", "where": "Q" if base_in_q else "P", "tpl": "base"})
     spec["classes"].append({"name": "Mid", "where": "P", "tpl": "mid"})
@@ -54,6 +56,8 @@ def render_class(spec, c, indent):
 
     def ref(name, site):
         w = where.get(name, "P")
+        if name == "Base" and spec.get("p_import") and not me_in_q:
+            return "Base"  # found through `import P.Q.Base;` of the enclosing package
         if fq[site % len(fq)]:
             return "%s.%s%s" % (P, "Q." if w == "Q" else "", name)
         if w == "Q" and not me_in_q:
@@ -105,6 +109,8 @@ def render_class(spec, c, indent):
 def render_single(spec):
     P = spec["P"]
     out = ["package %s" % P]
+    if spec.get("p_import"):
+        out.append("  import %s.Q.Base;" % P)
     for k, v in sorted(spec["p_consts"].items()):
         out.append("  constant Real %s = %d;" % (k, v))
     if spec["has_q"]:
@@ -128,6 +134,8 @@ def render_split(spec, assign):
     P = spec["P"]
     files = {}
     own = ["package %s" % P]
+    if spec.get("p_import"):
+        own.append("  import %s.Q.Base;" % P)
     for k, v in sorted(spec["p_consts"].items()):
         own.append("  constant Real %s = %d;" % (k, v))
     q_own = spec["has_q"] and assign["q_own"]
